@@ -107,6 +107,39 @@ Definition fd_matrix (order : nat) (b : bc) (n : nat) : option (list (list Z)) :
   | None => None
   end.
 
+(* ---- repaired state (fixes/C20_periodic_accumulate.diff): the periodic boundary patches are ADDED to the band
+   (`Dmat[r, c] += v`) instead of overwriting it; nothing else changes ---- *)
+Definition add1 (m n : nat) (p : Z * Z * Z) (f : option entry) : option entry :=
+  let '(r, c, v) := p in
+  match f, norm_idx m r, norm_idx n c with
+  | Some g, Some r', Some c' =>
+      Some (fun i j => if ((i =? r') && (j =? c'))%nat then (v + g i j)%Z else g i j)
+  | _, _, _ => None
+  end.
+
+Definition apply_patches_acc (m n : nat) (ps : list (Z * Z * Z)) (f : entry) : option entry :=
+  fold_left (fun acc p => add1 m n p acc) ps (Some f).
+
+Definition fd_parts_acc (order : nat) (b : bc) (n : nat) : option (nat * entry) :=
+  match order, b with
+  | 1%nat, Periodic =>
+      match apply_patches_acc (n + 1) n p1_periodic (spd d1_zero) with
+      | Some f => Some (n + 1, f) | None => None end
+  | 2%nat, Periodic =>
+      match apply_patches_acc (n + 2) n p2_periodic (spd d2_zero) with
+      | Some f => Some (n + 2, f) | None => None end
+  | _, _ => fd_parts order b n
+  end.
+
+Definition fd_matrix_acc (order : nat) (b : bc) (n : nat) : option (list (list Z)) :=
+  match fd_parts_acc order b n with
+  | Some (m, f) => Some (mk_mat m n f)
+  | None => None
+  end.
+
+(* which of the two constructions the tree under test has *)
+Definition fdm_of (acc : bool) := if acc then fd_matrix_acc else fd_matrix.
+
 (* ---------------- two dimensions: vstack [kron(I, D); kron(D, I)] ---------------- *)
 (* scipy.sparse.kron(A, B): block matrix [[a_ij * B]] *)
 Definition kron (A B : list (list Z)) : list (list Z) :=
@@ -120,13 +153,14 @@ Definition stack2d (n : nat) (D : list (list Z)) : list (list Z) := kron (eye n)
 Inductive nodes := NInt (n : nat) | NTup1 (n : nat) | NTup2 (n1 n2 : nat) | NBad.
 
 (* result: integer stencil matrix together with the divisor (dx or dx^2; 1 when dx is None) *)
-Definition fd_op (order : nat) (nd : nodes) (b : bc) (dx : option Q) : option (list (list Z) * Q) :=
+Definition fd_op_gen (fdm : nat -> bc -> nat -> option (list (list Z)))
+           (order : nat) (nd : nodes) (b : bc) (dx : option Q) : option (list (list Z) * Q) :=
   match nd with
   | NBad => None
   | NInt n | NTup1 n =>
       let d := (match dx with None => 1 | Some q => q end)%Q in
       if Qeq_bool d 0%Q then None       (* ZeroDivisionError *)
-      else match fd_matrix order b n with
+      else match fdm order b n with
            | Some M => Some (M, if (order =? 2)%nat then (d * d)%Q else d)
            | None => None
            end
@@ -134,12 +168,14 @@ Definition fd_op (order : nat) (nd : nodes) (b : bc) (dx : option Q) : option (l
       if negb (n1 =? n2)%nat then None                      (* NotImplementedError *)
       else match dx with
            | Some _ => None                                 (* NotImplementedError *)
-           | None => match fd_matrix order b n1 with
+           | None => match fdm order b n1 with
                      | Some D => Some (stack2d n1 D, 1%Q)
                      | None => None
                      end
            end
   end.
+
+Definition fd_op := fd_op_gen fd_matrix.
 
 Definition nodes_dim (nd : nodes) : nat :=
   match nd with NInt n | NTup1 n => n | NTup2 a b => a * b | NBad => 0 end.
@@ -148,16 +184,20 @@ Definition nodes_dim (nd : nodes) : nat :=
 Definition zmatmul := matmul 0%Z Z.add Z.mul.
 Definition gram (n : nat) (D : list (list Z)) : list (list Z) := zmatmul n (ztranspose n D) D.
 
-Definition diff_of_order (order : nat) (nd : nodes) (b : bc) : option (list (list Z)) :=
+Definition diff_of_order_gen (fdm : nat -> bc -> nat -> option (list (list Z)))
+           (order : nat) (nd : nodes) (b : bc) : option (list (list Z)) :=
   match order with
-  | 0%nat => option_map fst (fd_op 1 nd NoBC None)     (* "special case that is identity" *)
-  | 1%nat => option_map fst (fd_op 1 nd b None)
-  | 2%nat => option_map fst (fd_op 2 nd b None)
+  | 0%nat => option_map fst (fd_op_gen fdm 1 nd NoBC None)     (* "special case that is identity" *)
+  | 1%nat => option_map fst (fd_op_gen fdm 1 nd b None)
+  | 2%nat => option_map fst (fd_op_gen fdm 2 nd b None)
   | _ => None
   end.
+Definition diff_of_order := diff_of_order_gen fd_matrix.
 
-Definition prec_op (order : nat) (nd : nodes) (b : bc) : option (list (list Z)) :=
-  option_map (gram (nodes_dim nd)) (diff_of_order order nd b).
+Definition prec_op_gen (fdm : nat -> bc -> nat -> option (list (list Z)))
+           (order : nat) (nd : nodes) (b : bc) : option (list (list Z)) :=
+  option_map (gram (nodes_dim nd)) (diff_of_order_gen fdm order nd b).
+Definition prec_op := prec_op_gen fd_matrix.
 
 (* ---------------- applying the operators ---------------- *)
 Definition zabs_sum (v : list Z) : Z := fold_right (fun a s => (Z.abs a + s)%Z) 0%Z v.
@@ -180,9 +220,11 @@ Definition shift (x loc : list Z) : list Z :=
   end.
 
 (* LMRF / CMRF: FirstOrderFiniteDifference(num_nodes, bc_type); dim = 1 is refused *)
-Definition mrf_diff (pd dim : nat) (b : bc) : option (list (list Z)) :=
+Definition mrf_diff_gen (fdm : nat -> bc -> nat -> option (list (list Z))) (pd dim : nat) (b : bc)
+  : option (list (list Z)) :=
   if (dim =? 1)%nat then None
-  else option_map fst (fd_op 1 (mrf_nodes pd dim) b None).
+  else option_map fst (fd_op_gen fdm 1 (mrf_nodes pd dim) b None).
+Definition mrf_diff := mrf_diff_gen fd_matrix.
 
 (* Dx = D (x - location) *)
 Definition mrf_dx (pd dim : nat) (b : bc) (x loc : list Z) : option (list Z) :=
@@ -200,17 +242,30 @@ Definition cmrf_ratio (s : Q) (dx : list Z) : Q :=
 (* GMRF.__init__: the rank rule of the code, the operators, refusals *)
 Record gmrf := mkG { g_rank : nat; g_prec : list (list Z); g_diff : list (list Z) }.
 
-Definition gmrf_init (pd dim : nat) (b : bc) (order : nat) : option gmrf :=
+(* repaired rank rule (fixes/C20_gmrf_rank_rule.diff): dim - nullity, nullity = 0 for order 0,
+   2^physical_dim for order 2 / neumann, 1 otherwise *)
+Definition nullity_code (order : nat) (b : bc) (pd : nat) : nat :=
+  match order, b with
+  | 0%nat, _ => 0
+  | 2%nat, Neumann => 2 ^ pd
+  | _, _ => 1
+  end.
+
+Definition gmrf_init_gen (fdm : nat -> bc -> nat -> option (list (list Z))) (rank_fixed : bool)
+           (pd dim : nat) (b : bc) (order : nat) : option gmrf :=
   if (dim =? 1)%nat then None
-  else match diff_of_order order (mrf_nodes pd dim) b, prec_op order (mrf_nodes pd dim) b with
+  else match diff_of_order_gen fdm order (mrf_nodes pd dim) b, prec_op_gen fdm order (mrf_nodes pd dim) b with
        | Some D, Some P =>
            match b with
            | Zero => Some (mkG dim P D)
-           | Periodic | Neumann => Some (mkG (dim - 1) P D)      (* "self._rank = self.dim - 1" *)
+           | Periodic | Neumann =>
+               Some (mkG (if rank_fixed then dim - nullity_code order b pd
+                          else dim - 1) P D)                    (* "self._rank = self.dim - 1" *)
            | _ => None
            end
        | _, _ => None
        end.
+Definition gmrf_init := gmrf_init_gen fd_matrix false.
 
 (* the regularisation added before the Cholesky factorisation: sqrt(eps) = 2^-26 *)
 Definition chol_shift (b : bc) : Q := (match b with Zero => 0 | _ => 1 # 67108864 end)%Q.
@@ -436,4 +491,77 @@ Definition check_expdet_reg (pd dim : nat) (b : bc) (order : nat) (obs : Q) : bo
   match gmrf_expdet_reg pd dim b order with
   | Some d => q_close tol6 obs d
   | None => false
+  end.
+
+(* ---------------- the same checkers for a tree in a repaired state:
+   acc = periodic patches accumulate, rk = repaired rank rule ---------------- *)
+Definition check_fd_z_st (acc : bool) (order : nat) (nd : nodes) (b : bc) (obs : option (list (list Z))) : bool :=
+  opt_eqb zll_eqb (option_map fst (fd_op_gen (fdm_of acc) order nd b None)) obs.
+
+Definition check_fd_q_st (acc : bool) (order : nat) (nd : nodes) (b : bc) (dx : option Q) (exact : bool)
+           (obs : option (list (list Q))) : bool :=
+  match fd_op_gen (fdm_of acc) order nd b dx, obs with
+  | Some (M, d), Some ob => zq_mat_close exact ob M d
+  | None, None => true
+  | _, _ => false
+  end.
+
+Definition check_prec_st (acc : bool) (order : nat) (nd : nodes) (b : bc) (obs : option (list (list Z))) : bool :=
+  opt_eqb zll_eqb (prec_op_gen (fdm_of acc) order nd b) obs.
+
+Definition check_apply_st (acc : bool) (order : nat) (nd : nodes) (b : bc) (x y obs_Dx obs_DTy : list Z) : bool :=
+  match fd_op_gen (fdm_of acc) order nd b None with
+  | Some (D, _) => zl_eqb (zmatvec D x) obs_Dx && zl_eqb (zmattvec (nodes_dim nd) D y) obs_DTy
+  | None => false
+  end.
+
+Definition check_gmrf_init_st (acc rk : bool) (pd dim : nat) (b : bc) (order : nat)
+           (obs : option (nat * list (list Z) * list (list Z))) : bool :=
+  match gmrf_init_gen (fdm_of acc) rk pd dim b order, obs with
+  | Some g, Some (r, P, D) => (g_rank g =? r)%nat && zll_eqb (g_prec g) P && zll_eqb (g_diff g) D
+  | None, None => true
+  | _, _ => false
+  end.
+
+(* the remaining GMRF / MRF checkers depend on the state only through the operators *)
+Definition with_prec (acc : bool) (pd dim : nat) (b : bc) (order : nat) (k : gmrf -> bool) : bool :=
+  match gmrf_init_gen (fdm_of acc) false pd dim b order with Some g => k g | None => false end.
+
+Definition check_true_rank_st (acc : bool) (pd dim : nat) (b : bc) (order : nat) (obs_rank : nat) : bool :=
+  with_prec acc pd dim b order (fun g => (zrank dim (g_prec g) =? obs_rank)%nat).
+
+Definition check_true_expdet_st (acc : bool) (pd dim : nat) (b : bc) (order : nat) (obs : Q) : bool :=
+  with_prec acc pd dim b order (fun g =>
+    let P := g_prec g in
+    if (zrank dim P =? dim)%nat then q_close tol9 obs (zdet P)
+    else if (zrank dim P =? dim - 1)%nat then q_close tol9 obs (pdet1 P) else false).
+
+Definition check_gmrf_quad_st (acc : bool) (pd dim : nat) (b : bc) (order : nat) (x mean : list Z) (obs : Q) : bool :=
+  with_prec acc pd dim b order (fun g => q_close tol9 obs (inject_Z (quad (g_prec g) (shift x mean)))).
+
+Definition check_sqrtprec_st (acc : bool) (pd dim : nat) (b : bc) (order : nat) (prec : Q) (R : list (list Q)) : bool :=
+  with_prec acc pd dim b order (fun g =>
+      let Rc := qmat R in
+      let RtR := qmatmul dim (qtranspose dim Rc) Rc in
+      let expected := map (fun ir => map (fun jz =>
+                         qc (prec * (inject_Z (snd jz) + (if (fst ir =? fst jz)%nat then chol_shift b else 0)))%Q)
+                         (combine (seq 0 dim) (snd ir))) (combine (seq 0 dim) (g_prec g)) in
+      (length R =? dim)%nat && qcll_close tol9 RtR expected).
+
+Definition check_lmrf_st (acc : bool) (pd dim : nat) (b : bc) (x loc : list Z) (obs_l1 : option Q)
+           (obs_D : option (list (list Z))) : bool :=
+  opt_eqb zll_eqb (mrf_diff_gen (fdm_of acc) pd dim b) obs_D &&
+  match option_map (fun D => zabs_sum (zmatvec D (shift x loc))) (mrf_diff_gen (fdm_of acc) pd dim b), obs_l1 with
+  | Some l, Some o => q_close tol9 o (inject_Z l)
+  | None, None => true
+  | _, _ => false
+  end.
+
+Definition check_cmrf_st (acc : bool) (pd dim : nat) (b : bc) (s : Q) (x loc : list Z) (obs_ratio : option Q)
+           (obs_D : option (list (list Z))) : bool :=
+  opt_eqb zll_eqb (mrf_diff_gen (fdm_of acc) pd dim b) obs_D &&
+  match option_map (fun D => zmatvec D (shift x loc)) (mrf_diff_gen (fdm_of acc) pd dim b), obs_ratio with
+  | Some d, Some o => q_close tol9 o (cmrf_ratio s d)
+  | None, None => true
+  | _, _ => false
   end.
